@@ -173,6 +173,69 @@ def r3_guard(repo):
     if len(writes) != 2:
         raise AnalysisError("expected the two IR writes in TypeErasure.visit_func_decl, found %d" % len(writes),
                             rule="C03-R3", anchor=f.qualname)
+    # second layout: the search lives in a helper that *returns* the accepted combination (`return combination` right
+    # under the feasibility test, an empty tuple otherwise) and the writes iterate over its result
+    helper_form = None
+    inner0 = [a for a in ancestors(writes[0]) if isinstance(a, ast.For)]
+    if len(inner0) == 1 and isinstance(inner0[0].iter, ast.Name):
+        ds = g.defs_reaching(inner0[0].iter.id, inner0[0])
+        if len(ds) == 1 and isinstance(ds[0][1], ast.Call):
+            tg, _how = repo.resolve_call(ds[0][1], f)
+            tg = [t for t in tg if t.module is f.module]
+            if len(tg) == 1:
+                helper_form = (inner0[0], ds[0][1], tg[0])
+    if helper_form is not None:
+        lp, hcall, h = helper_form
+        hg = cfg_of(h.node)
+        rets = [r for r in iter_own_nodes(h.node) if isinstance(r, ast.Return)]
+        empties = [r for r in rets if r.value is None or (isinstance(r.value, (ast.Tuple, ast.List)) and not r.value.elts)]
+        found = [r for r in rets if r not in empties]
+        okh, why = False, "helper %s: returns %s" % (h.name, [src(r) for r in rets])
+        sloop = None
+        if len(found) == 1 and isinstance(found[0].value, ast.Name):
+            comb = found[0].value.id
+            loops_h = [a for a in ancestors(found[0]) if isinstance(a, ast.For)]
+            if loops_h and comb in {n.id for n in ast.walk(loops_h[0].target) if isinstance(n, ast.Name)}:
+                sloop = loops_h[0]
+                tests = [t for t, p in flat_guards(found[0], stop=sloop) if p and isinstance(t, ast.Call) and
+                         call_name(t) == "is_combination_feasible"]
+                okh = len(tests) == 1 and src(tests[0].args[1]) == comb
+                if okh:
+                    a0 = tests[0].args[0]
+                    if isinstance(a0, ast.Name):
+                        dd = hg.defs_reaching(a0.id, tests[0])
+                        okh = len(dd) == 1 and isinstance(dd[0][1], ast.Call) and call_name(dd[0][1]) in ("copy", "dict") and \
+                            is_within(hg.stmt(dd[0][0]), sloop)
+                    else:
+                        okh = isinstance(a0, ast.Call) and call_name(a0) in ("copy", "dict") and len(a0.args) == 1
+                why = "helper %s returns `%s` under %s" % (h.name, comb, [src(t) for t in tests])
+        for wn in writes:
+            root = src(wn.func.value) if isinstance(wn, ast.Call) else src(wn.targets[0].value)
+            key = "write:" + (src(wn)[:60] if isinstance(wn, ast.Call) else src(wn.targets[0]))
+            obs.append(Ob("C03-R3", key + ":guarded-by-feasibility-of-this-combination", _w(f, wn),
+                          okh and root.split(".")[0] == src(lp.target) and not flat_guards(lp),
+                          "the writes iterate over the result of %s, which must return a combination only right under "
+                          "`is_combination_feasible(<fresh copy made in that iteration>, combination)` and the empty tuple "
+                          "otherwise: %s" % (h.name, why)))
+        obs.append(Ob("C03-R3", "first-feasible-combination-only", _w(f), okh,
+                      "the helper returns at the first accepted combination"))
+        prov_h = Prov(h.node, passthrough={"enumerate", "from_iterable", "combinations", "chain"})
+        okc = False
+        if sloop is not None:
+            srcs = prov_h.sources(sloop.iter)
+            pnames = {s_ for s_ in srcs if isinstance(s_, str)} | {getattr(s_, "id", None) for s_ in srcs if isinstance(s_, ast.Name)}
+            # which argument of the call feeds the search loop: follow the parameter back to the caller
+            for i_, p_ in enumerate(h.params[1:] if h.cls is not None else h.params):
+                if any(p_ == x or ("param:" + p_) == x for x in pnames) or p_ in src(sloop.iter) or \
+                        any(isinstance(s_, ast.AST) and p_ in {n.id for n in ast.walk(s_) if isinstance(n, ast.Name)} for s_ in srcs):
+                    if i_ < len(hcall.args):
+                        csrcs = Prov(fn).sources(hcall.args[i_], at=hcall)
+                        comps = [s_ for s_ in csrcs if isinstance(s_, ast.ListComp)]
+                        if any(any(src(i).endswith(".is_omittable()") for i in c.generators[0].ifs) for c in comps):
+                            okc = True
+        obs.append(Ob("C03-R3", "candidates-are-omittable-graph-nodes", _w(f), okc,
+                      "the combinations must be drawn from [n for n in type_graph.keys() if n.is_omittable()]"))
+        return obs + _r3_tail(repo, f, fn, g)
     for wn in writes:
         inner = [a for a in ancestors(wn) if isinstance(a, ast.For)]
         ok, msg = False, "write is not inside the loop over the accepted combination"
@@ -238,6 +301,11 @@ def r3_guard(repo):
                  (".keys()" in src(c.generators[0].iter) or src(c.generators[0].iter) in graph_names) for c in comps)
     obs.append(Ob("C03-R3", "candidates-are-omittable-graph-nodes", _w(f), ok,
                   "the combinations must be drawn from [n for n in type_graph.keys() if n.is_omittable()]"))
+    return obs + _r3_tail(repo, f, fn, g)
+
+
+def _r3_tail(repo, f, fn, g):
+    obs = []
     # the function's graph is completed with the global graph, global entries taking precedence
     for q_ in (TE + ".visit_func_decl", "src.transformations.type_overwriting.TypeOverwriting._add_candidate_method"):
         h = repo.fn(q_)
@@ -385,15 +453,36 @@ def r6_omittable(repo):
     hd = [c for c in calls_in(vf.node) if call_name(c) == "_handle_declaration" and
           any(const_value(a) == "ret_type" for a in c.args)]
     okr, whyr = False, "no _handle_declaration(..., 'ret_type') in visit_func_decl"
+    inline_rec = False
     if len(hd) == 1:
-        gs = [(" ".join(src(t).split()), p) for t, p in flat_guards(hd[0])]
+        from ..cfg import resolve_local as _rl
+        gs = [(" ".join(src(_rl(vf.node, t, at=hd[0])).split()), p) for t, p in flat_guards(hd[0])]
         nd = vf.params[1]
-        okr = ("isinstance(%s.body, ast.Block)" % nd, False) in gs and \
-            ("_is_recursive_call(%s.name, %s.body)" % (nd, nd), False) in gs
+        by_helper = ("_is_recursive_call(%s.name, %s.body)" % (nd, nd), False) in gs
+        # the same test written in place: `isinstance(node.body, ast.FunctionCall) and node.name == node.body.func`
+        for t, p in flat_guards(hd[0]):
+            e = _rl(vf.node, t, at=hd[0])
+            if p or not (isinstance(e, ast.BoolOp) and isinstance(e.op, ast.And)):
+                continue
+            conj = [" ".join(src(v).split()) for v in e.values]
+            reads = sorted({n.attr for n in ast.walk(e) if isinstance(n, ast.Attribute) and src(n.value) == "%s.body" % nd})
+            if "isinstance(%s.body, ast.FunctionCall)" % nd in conj and reads == ["func"] and len(conj) == 2 and \
+                    any(isinstance(v, ast.Compare) and isinstance(v.ops[0], ast.Eq) and
+                        {src(v.left), src(v.comparators[0])} == {"%s.name" % nd, "%s.body.func" % nd} for v in e.values):
+                inline_rec = True
+        okr = ("isinstance(%s.body, ast.Block)" % nd, False) in gs and (by_helper or inline_rec)
         whyr = "guards of the return-type declaration node: %s" % gs
     obs.append(Ob("C03-R6", "visit_func_decl:return-type-omittable-only-for-non-recursive-expression-bodies", _w(vf), okr,
                   "the virtual declaration for the return type may be created only when the body is neither a block nor "
                   "a recursive call: " + whyr))
+    if inline_rec and repo.functions.get(TDA + "._is_recursive_call") is None:
+        obs.append(Ob("C03-R6", "_is_recursive_call:by-name-only", _w(vf), True,
+                      "the recursion test is written in place in visit_func_decl: same name, whatever the receiver"))
+        obs.append(Ob("C03-R6", "inferred_type-declarations=omit_type-classes", "src/ir/ast.py",
+                      decls == with_omit == ["FunctionDeclaration", "VariableDeclaration"],
+                      "declaration classes with an inferred_type attribute: %s; classes with omit_type: %s "
+                      "(parameters and fields are never erased)" % (decls, with_omit)))
+        return obs
     rc = repo.fn(TDA + "._is_recursive_call")
     nm, body = rc.params[:2]
     reads = sorted({n.attr for n in ast.walk(rc.node) if isinstance(n, ast.Attribute) and src(n.value) == body})
